@@ -14,7 +14,7 @@ Nodes == [n \in {"a", "b", "h", "m", "o1", "o2", "o3", "gen/o4", "<all>"} |->
             IF n = "<all>" THEN ND("virtual", "") ELSE ND("file", n)]
 Sh(ins, outs, tag, sigx, reads, failif) ==
   [tool |-> "shell", ins |-> ins, outs |-> outs, sigx |-> sigx, aood |-> FALSE, ami |-> FALSE, amo |-> FALSE,
-   tag |-> tag, reads |-> reads, depsok |-> TRUE, failif |-> failif, failpt |-> "before", expected |-> <<>>, roots |-> <<>>]
+   tag |-> tag, keep |-> FALSE, reads |-> reads, depsok |-> TRUE, failif |-> failif, failpt |-> "before", expected |-> <<>>, roots |-> <<>>]
 Phony(ins, outs) == [Sh(ins, outs, "", 0, <<>>, "") EXCEPT !.tool = "phony"]
 NoPaths == <<>>
 D(cmds, tgt) == [cmds |-> cmds, nodes |-> Nodes, targets |-> [t |-> tgt], paths |-> NoPaths]
@@ -23,6 +23,7 @@ C1  == Sh(<<"a">>, <<"o1">>, "c1", 1, <<"h">>, "")
 C1x == Sh(<<"a">>, <<"o1">>, "c1x", 2, <<"h">>, "")           \* arguments changed
 C1f == Sh(<<"a">>, <<"o1">>, "c1", 1, <<"h">>, "m")           \* fails while marker m exists
 C1m == Sh(<<"a">>, <<"o1", "o3">>, "c1", 1, <<>>, "")          \* two outputs
+C1k == [C1 EXCEPT !.keep = TRUE, !.sigx = 3]               \* write-if-changed variant
 C2  == Sh(<<"o1", "b">>, <<"o2">>, "c2", 1, <<>>, "")
 C2r == Sh(<<"o1", "a">>, <<"o2">>, "c2", 1, <<>>, "")          \* rewired
 C3  == Sh(<<"o3">>, <<"gen/o4">>, "c3", 1, <<>>, "")
@@ -35,12 +36,13 @@ DD == D([c2 |-> C2], <<"o2">>)                                  \* c1 removed: o
 DE == D([c1 |-> C1f, c2 |-> C2], <<"o2">>)
 DF == D([c1 |-> C1m, c2 |-> C2, c3 |-> C3, all |-> CAll], <<"<all>">>)
 DG == D([c1 |-> C1m, c2 |-> C2, c3 |-> C3, all |-> CAll], <<"o2">>)
+DK == D([c1 |-> C1k, c2 |-> C2], <<"o2">>)
 
-AllDescs == {DA, DB, DC, DD, DE, DF, DG}
+AllDescs == {DA, DB, DC, DD, DE, DF, DG, DK}
 Init08 == {DA, DF}
 Init09 == {DA, DB, DC}
 Init10 == {DE}
-Init11 == {DA}
+Init11 == {DA, DK}
 TargetKeys == {TK("t")}
 NodeTargets == {TK("t"), NK("o1")}
 =============================================================================
